@@ -11,7 +11,16 @@ can be interleaved, and in which the store may drop any key between any two step
 eviction, clean-up, removal of a failed write).  `validateSized` puts the node's own size test in front.  The routing table, the list/order of payment checks and the comparators come
 from `SafeNet.Gen.Validate`, regenerated from the Rust source.
 
-Identities are small naturals; key number = `3*id + space` (0 chunk, 1 owner, 2 register).
+Identities are small naturals.  **Record keys are derived values with no kind tag**: key number `n` stands for
+SHA3-256 of *address preimage* number `n`, where preimage `3*i` is plain data number `i`, preimage `3*o+1` is the 48
+public-key bytes of owner `o` (hashed by `ScratchpadAddress::xorname` AND by `TransactionAddress::from_owner`), and
+preimage `3*r+2` is `meta ‖ pk` of register `r` (`RegisterAddress::xorname`); `NetworkAddress::to_record_key` maps
+every typed address to the bare 32 name bytes.  Distinct numbers = distinct byte strings, whose hashes differ under
+collision-freedom (`AddrDerive`, `C04.key_determines_content`).  A chunk's key is the hash of its BYTES
+(`Chunk::new`), and its bytes can be any byte string — in particular an owner's public key or a register's
+`meta ‖ pk`: `DContent.chunkPre n` is the chunk whose bytes are preimage `n`, and it derives key `n` whatever else
+derives that key (`chunk i` = `chunkPre (3*i)`, kept as the common case).  So key spaces of different kinds are NOT
+disjoint: a Chunk can sit at an owner-derived key (K-f5, `Props/C07`).
 -/
 namespace SafeNet.Validate
 open SafeNet.Gen.Validate
@@ -268,6 +277,9 @@ deriving DecidableEq, Repr
 inductive DContent
   | bad
   | chunk (id : Nat)
+  /-- a chunk whose bytes are exactly address preimage number `pre` (an owner's public key, a register's
+  `meta ‖ pk`, or plain data) -/
+  | chunkPre (pre : Nat)
   | pad (owner n : Nat) (valid : Bool)
   | txs (l : List TxD)
   | reg (id : Nat) (base : RegBase) (ops : List OpD)
@@ -310,14 +322,17 @@ def kindFam : Kind → Nat
 def contentFam : DContent → Option Nat
   | .bad => none
   | .chunk _ => some 0
+  | .chunkPre _ => some 0
   | .pad .. => some 1
   | .txs _ => some 2
   | .reg .. => some 3
 
-/-- the key the content itself determines -/
+/-- the key the content itself determines: the number of the byte string that is hashed (for a chunk: its own
+bytes, whatever they are) -/
 def derivedKey : DContent → Option Nat
   | .bad => none
   | .chunk id => some (3 * id)
+  | .chunkPre pre => some pre
   | .pad owner _ _ => some (3 * owner + 1)
   | .txs l => l.head?.map (fun t => 3 * t.owner + 1)
   | .reg id _ _ => some (3 * id + 2)
@@ -457,6 +472,7 @@ def written (d : Delivery) (a : Ans) (merged : Bool) : Content :=
   let loc : Option Content := a.g.getD none
   match d.content with
   | .chunk _ => .chunk
+  | .chunkPre _ => .chunk
   | .pad _ n valid => .pad n valid
   | .txs _ =>
     let mine := (txValid d).map (·.t)
@@ -632,6 +648,46 @@ def sizeGate (client : Bool) (len : Nat) : Bool :=
 `none` = refused as too large (an error, no command at all), otherwise the decision function. -/
 def validateSized (len : Nat) (d : Delivery) (s : Store) : Option (Res × List Tok) :=
   if sizeGate d.client len then none else some (validate d s)
+
+/-! ## The size test on the record a store function BUILDS (delivered content merged with the local copy)
+
+`validate_merge_and_store_transactions` re-serialises delivered ∪ local transactions, `validate_and_store_register`
+the merged register: a new record, possibly larger than anything that arrived (`Transaction.parents / outputs` are
+unbounded and an owner may append without payment).  Since the repair both apply the entry points' size test to that
+record before `put_local_record` (flags regenerated from the source). -/
+
+def hasPut : List Tok → Bool
+  | [] => false
+  | .W _ _ :: _ => true
+  | _ :: r => hasPut r
+
+/-- the commands emitted before the first put -/
+def cutAtPut : List Tok → List Tok
+  | [] => []
+  | .W _ _ :: _ => []
+  | t :: r => t :: cutAtPut r
+
+/-- does the store function behind this delivery test the size of the record it builds? -/
+def putGate (d : Delivery) : Bool :=
+  if kindFam d.kind = 2 then txMergedPutRefusesOversize
+  else if kindFam d.kind = 3 then regMergedPutRefusesOversize
+  else false
+
+inductive Sized
+  /-- the arriving record is too large: an error before anything else, no command -/
+  | refused
+  /-- the record built for the put is too large: an error after these commands; no put, no notice, no replication -/
+  | refusedAtPut (toks : List Tok)
+  | done (r : Res) (toks : List Tok)
+deriving DecidableEq, Repr
+
+/-- `validate_and_store_record` / `store_replicated_in_record` on an arriving record of `len` bytes whose store
+function would put a record of `plen` bytes (delivered content merged with the local copy, re-serialised) -/
+def validateSizedPut (len plen : Nat) (d : Delivery) (s : Store) : Sized :=
+  if sizeGate d.client len then .refused
+  else
+    let rt := validate d s
+    if putGate d && oversize plen && hasPut rt.2 then .refusedAtPut (cutAtPut rt.2) else .done rt.1 rt.2
 
 /-! ## `RecordStore::put` (the libp2p-facing put) -/
 
